@@ -1,6 +1,7 @@
 package main
 
 import (
+	"os"
 	"go/types"
 	"strings"
 	"fmt"
@@ -94,6 +95,12 @@ func blockPos(b *ssa.BasicBlock) token.Pos {
 // it into a helper), the `loop k` clauses follow the loops by the source line of their head. cur2locked maps the ordinals
 // of the current loops to the recorded ones (-1: a loop the lock does not know); orphans are recorded loops that are no
 // longer in the function, by header line.
+type orphanSpec struct {
+	header  string
+	ordinal int
+	placed  bool
+}
+
 type loopRemap struct {
 	cur2locked map[int]int
 	orphans    map[string][]int // header line -> recorded ordinals, in order
@@ -120,7 +127,8 @@ func (ex *Exec) rootLoopRemap() *loopRemap {
 			}
 		}
 	}
-	if same {
+	if same || len(cur) == len(e.Loops) {
+		// the same loops (possibly with an edited head): clauses stay attached by ordinal
 		return nil
 	}
 	// longest common subsequence of the two header lists
@@ -164,6 +172,15 @@ func (ex *Exec) rootLoopRemap() *loopRemap {
 		}
 	}
 	ex.remap = rm
+	// a recorded loop that carries clauses and can be found neither in the function nor (later) in a helper it now calls
+	// must not lose its obligations silently
+	for h, ks := range rm.orphans {
+		for _, k := range ks {
+			if ls := ex.contract.Loops[fmt.Sprint(k)]; ls != nil {
+				ex.orphanSpecs = append(ex.orphanSpecs, orphanSpec{header: h, ordinal: k})
+			}
+		}
+	}
 	ex.note("the loops of " + relName(ex.root) + " differ from the ones recorded in the lock: loop clauses are attached by the source line of the loop head")
 	return rm
 }
@@ -183,6 +200,11 @@ func (ex *Exec) loopSpecFor(fr *Frame, li *loopInfo) *LoopSpec {
 				// a loop of the root function that an edit moved into this new helper
 				h := strings.Join(strings.Fields(sourceLine(ex.prog, li.pos)), "")
 				if ks := rm.orphans[h]; len(ks) > 0 {
+					for i := range ex.orphanSpecs {
+						if ex.orphanSpecs[i].ordinal == ks[0] {
+							ex.orphanSpecs[i].placed = true
+						}
+					}
 					return ex.contract.Loops[fmt.Sprint(ks[0])]
 				}
 			}
@@ -251,7 +273,11 @@ func (ex *Exec) loopArrive(fr *Frame, from, head *ssa.BasicBlock, li *loopInfo) 
 				ex.oblige("inv-step", fmt.Sprintf("%s:%03d", lname, i), li.pos, "loop invariant preserved: "+inv.Text, ex.evalBool(inv.E, env()))
 			}
 			for i, st := range spec.Steps {
-				ex.oblige("inv-step", fmt.Sprintf("%s:step%03d", lname, i), li.pos, "holds whenever the loop goes round: "+st.Text, ex.evalBool(st.E, env()))
+				sc := ex.evalBool(st.E, env())
+				if os.Getenv("GOVC_DEBUGSTEP") != "" {
+					fmt.Fprintf(os.Stderr, "DEBUG step %s: %s\n", lname, ex.ts.Show(sc))
+				}
+				ex.oblige("inv-step", fmt.Sprintf("%s:step%03d", lname, i), li.pos, "holds whenever the loop goes round: "+st.Text, sc)
 			}
 			if spec.Decreases != nil {
 				e := env()
